@@ -220,7 +220,8 @@ def directed():
                {"kind": "mixed", "seed": 12, "mag": 2.0},
                {"kind": "uniform", "seed": 13, "mag": 0.9}]
     for route, js in ROUTES:
-      ops.append({"k": "RESTART", "q": 0, "route": route, "json": js})
+      ops.append({"k": "RESTART", "q": 0, "route": route, "json": js,
+                  "twice": not js})
       for ph in (0, 1):
         ops.append({"k": "PHASE", "p": ph})
         for t in tensors:
